@@ -176,7 +176,8 @@ def main(argv=None):
                 jobs.append((pid, modname, i, tier, "canary"))
     results = run_jobs(jobs, max(1, args.jobs), 900 if tier == "quick" else 3600)
 
-    findings = [f for f in load_findings() if f.get("property") == pid and f.get("status", "open") == "open"]
+    # a recorded finding is keyed by function/clause/region, whichever property's check re-derives it
+    findings = [f for f in load_findings() if f.get("status", "open") == "open"]
     import shutil
     shutil.rmtree(os.path.join(ROOT, "replays", pid), ignore_errors=True)
     os.makedirs(os.path.join(ROOT, "replays", pid), exist_ok=True)
@@ -417,6 +418,9 @@ def match_finding(findings, target, clause, replay, ob):
         if f.get("clause") and f["clause"] != clause and pred is None:
             continue
         if replay is None:
+            continue
+        scen = (replay.get("inputs") or {}).get("scenario") if isinstance(replay, dict) else None
+        if scen is not None and f.get("cases") and scen not in f["cases"]:
             continue
         if pred is None:
             return f
